@@ -47,11 +47,11 @@ func indexCases(run *hx.Run, low *sdb.Database, d *hx.DB, t *hx.TableInfo) []idx
 	var out []idxCase
 	listed := map[string]bool{}
 	for _, si := range s.Indexes {
-		listed[strings.ToLower(si.Index)] = true
+		listed[hx.FoldName(si.Index)] = true
 	}
 	for i := range t.Indexes {
 		ix := &t.Indexes[i]
-		if !listed[strings.ToLower(ix.Name)] {
+		if !listed[hx.FoldName(ix.Name)] {
 			if !(t.WR != 0 && ix.Origin == "pk") {
 				run.Count("indexes_left_out_by_sqlittle", 1)
 				run.See("left_out", ix.Name)
@@ -83,7 +83,7 @@ func indexCases(run *hx.Run, low *sdb.Database, d *hx.DB, t *hx.TableInfo) []idx
 	for _, si := range s.Indexes {
 		found := false
 		for i := range t.Indexes {
-			if strings.EqualFold(t.Indexes[i].Name, si.Index) {
+			if hx.SameName(t.Indexes[i].Name, si.Index) {
 				found = true
 			}
 		}
